@@ -650,6 +650,38 @@ def r_layout_source(F, V):
                     R.violation(key, body, "a TableLayout other than the caller's own parameter or the associated const TABLE_LAYOUT is passed to %s: size/alignment used for freeing may differ from the allocation" % cp, line=line_of(body, bb=i))
                     R.inst(key, "foreign TableLayout", "violation", True, where(body, bb=i))
     R.floor("TableLayout-typed arguments", nt, {"posctl": 0}.get(F.cfg, 10))
+    # (v) `calculate_layout_for(..) -> None => unreachable_unchecked()`: sound only if the call repeats the computation that
+    # succeeded when the block was allocated: same TableLayout (own parameter / TABLE_LAYOUT) and buckets() of the same table
+    from cond import controlling_sources as _cs, sources as _srcs
+    nu2 = 0
+    for p, body in F.bodies.items():
+        for i, t in body.calls():
+            if (callee_path(t) or "") != "core::hint::unreachable_unchecked":
+                continue
+            lay = None
+            for (bb, succ, S) in _cs(body, i):
+                for c, lst in S.calls.items():
+                    if c.endswith("TableLayout::calculate_layout_for"):
+                        lay = lst[0][1]
+            if lay is None:
+                continue
+            nu2 += 1
+            key = "%s|layout-recomputed" % p
+            okb = False
+            if len(lay["args"]) >= 2:
+                Sb = _srcs(body, lay["args"][1])
+                okb = any(c.endswith("::buckets") for c in Sb.calls) or Sb.has_load("bucket_mask")
+            a0 = lay["args"][0]
+            okl = (a0["k"] == "const" and (a0.get("def") or "").endswith("::TABLE_LAYOUT"))
+            if not okl and a0["k"] in ("copy", "move"):
+                r0 = body.root_of_place(a0["p"])[0]
+                okl = body.is_arg(r0) or any(o[0] == "const" and (o[1].get("def") or "").endswith("::TABLE_LAYOUT") for o in body.origins(a0))
+            if okb and okl:
+                R.inst(key, "unreachable_unchecked after calculate_layout_for(own layout, self.buckets()): repeats the computation that succeeded at allocation", "ok", True, where(body, bb=i))
+            else:
+                R.violation(key, body, "unreachable_unchecked() on the None arm of calculate_layout_for, but the call does not repeat the allocation-time computation (own TableLayout: %s, bucket count of the same table: %s): None is reachable, which is undefined behaviour" % (okl, okb), line=line_of(body, bb=i))
+                R.inst(key, "layout recomputation differs from the allocation", "violation", True, where(body, bb=i))
+    R.floor("unreachable_unchecked sites guarded by a layout recomputation", nu2, {"posctl": 0}.get(F.cfg, 2))
     # (iv) allocation_size_or_zero reports the size of the very layout the block was allocated with
     ab = F.bodies.get("raw::RawTableInner::allocation_size_or_zero")
     if ab is not None:
@@ -857,3 +889,55 @@ def _reach(body, b):
 def guard_disarms_local(body, g):
     from rules.accounting import guard_disarms
     return guard_disarms(body, g)
+
+
+# --------------------------------------------------------------------- R-UNCHECKED-LEDGER (informational)
+
+def r_unchecked_ledger(F, V):
+    """every `*_unchecked` / `unreachable_unchecked` call that is compiled in this configuration, with the class of its
+    justification. Informational: it never produces a violation; a site that no rule justifies is listed as
+    'audited only' so that the evidence says plainly what the static argument does not cover."""
+    from cond import controlling_sources
+    R = Result("R-UNCHECKED-LEDGER", F.cfg)
+    n = 0
+    classes = {}
+    for p, body in F.bodies.items():
+        for i, t in body.calls():
+            cp = callee_path(t) or ""
+            name = cp.split("::")[-1]
+            if not (name.endswith("_unchecked") or name == "unreachable_unchecked" or name in ("assume_init", "assume_init_mut", "assume_init_ref")):
+                continue
+            sp = t.get("sp") or {}
+            if any(m.startswith("debug_assert") for m in sp.get("mac", [])):
+                continue
+            n += 1
+            cls_ = "audited only (not statically decided)"
+            if name == "unreachable_unchecked":
+                err = False
+                for (bb, s, S) in controlling_sources(body, i):
+                    if any("TryReserveError" in (body.locals[body.root_of_place(tt["dest"])[0]]["ty"]["s"]) for lst in S.calls.values() for _, tt in lst) or S.has_call("is_err"):
+                        err = True
+                cls_ = "rule: R-INFALLIBLE (Err of a call given Fallibility::Infallible)" if err else "rule: R-FIELD-IMMUT + R-LAYOUT-SOURCE (layout of an existing allocation recomputed from an immutable bucket_mask)"
+            elif name == "from_size_align_unchecked":
+                cls_ = "rule: R-ARITH (guarded length, ctrl_align)"
+            elif name == "new_unchecked":
+                S = __import__("cond").sources(body, t["args"][0]) if t["args"] else None
+                srcs = sorted(set(c.split("::")[-1] for c in (S.calls if S else {})))
+                cls_ = "non-null by construction (operand from %s)" % (", ".join(srcs) or "a constant / reference")
+            elif name == "unwrap_unchecked":
+                cls_ = "audited only: rests on the load-factor invariant (an EMPTY/DELETED byte exists in the group) - not statically decided"
+            classes[cls_.split(" (")[0].split(":")[0]] = classes.get(cls_.split(" (")[0].split(":")[0], 0) + 1
+            R.inst("%s|%s@%d" % (p, name, _ord(body, i, name)), cls_, "ok", False, where(body, bb=i))
+    R.info["unchecked call sites"] = n
+    R.info["by justification class"] = classes
+    return R
+
+
+def _ord(body, block, name):
+    k = 0
+    for i, t in body.calls():
+        if (callee_path(t) or "").split("::")[-1] == name:
+            if i == block:
+                return k
+            k += 1
+    return k
